@@ -828,3 +828,109 @@ PROPS["C19"] = dict(
                  "default feature set (no parallel_segments, no replay); TMPDIR is not the memory's directory"],
     allowed_axioms=[],
 )
+
+PROPS["C17"] = dict(
+    corr_module="Corr.C17",
+    streams={"hist": dict(runner="C17_run", in_t="C17_in", out_t="C17_out", shard=8, imports=["Model.LockTable"])},
+    n_quick=26, n_thorough=120,
+    harness_timeout=1500,
+    rule="16 scripted histories (the F-C17-1 witness create; open(refused, 10 s); commit; open(granted) + lost commit, both opens repeated from a child process; put before the first commit; vacuum; "
+         "close + reopen; doctor on the closed file, then open; doctor against a live handle before / after its first commit; vacuum then drop; an opener WAITING in the retry loop (thread) while the writer "
+         "commits twice and closes / just closes / is killed; kill (exit without commit); three writers; create on the path of a live writer (F-C17-2); one oracle-only history: put + commit after a doctor ran on the handle's inode) "
+         "+ random histories of 5-11 ops over up to 5 handles (put, commit, vacuum, open, drop, kill, doctor; at most one refused blocking open each; put -> commit kept adjacent once a lock sits on a replaced inode, "
+         "no put by a handle whose inode a doctor rewrote: the model's log region is positional), 12 histories in parallel. Real handles live in one process on separate open file descriptions (flock is per description). "
+         "Compared after EVERY step: call Ok / refused, path st_ino changed, non-blocking flock probe on the path (FileLock::try_acquire) refused or a waiter pending on that inode, per live handle whether its lock descriptor's st_ino "
+         "differs from the path's; at the end every live handle's frame table and the table a fresh open shows. Oracle on the implementation: never two live writable handles / a doctor with write access next to a live handle "
+         "(class by st_ino: lock inode <> path inode -> inode-replaced-under-lock, else two-writers-same-inode), every frame whose commit returned Ok is in the final file, a create refused on the lock leaves the file length unchanged, "
+         "child-process open agrees with the in-process one. non-trivial = a refused call or two live writers; distinct by digest of the op list; histories hit by a Tantivy start-up error under load are retried, then excluded and tagged",
+    level_text="Unbounded theorems over a model of the lock table at the level of inodes and open file descriptions (flock per description, released with the last descriptor, per inode, rename moves no lock), any number of handles, "
+               "any interleaving of open (cut at the rounds of its retry loop) / create / try_open / put / commit / vacuum / drop / kill / doctor. Correct protocol (lock follows the inode, opener re-validates): at most one live writable handle, "
+               "its flock on the inode the path names, its view equal to the file, commits keep every frame, a refused open/create changes nothing. Implementation model (self.lock stays on the replaced inode): the property is REFUTED "
+               "(create; commit; open -> two writers; lost commit; waiting opener; create truncates before locking) and PROVED outside the class 'a live handle's flock is on an inode the path no longer names' and for every history without an "
+               "inode-replacing step; per inode the lock works. Model tied to the code by differential histories on real handles incl. child-process opens.",
+    level_note="Known findings F-C17-1 (lock stays on the inode a commit replaced: second writer admitted, commits silently lost) and F-C17-2 (create truncates before it locks). Trusted: Coq kernel + vm_compute; hand-written model of src/lock.rs, "
+               "Memvid::create/open/try_open, with_staging_lock's descriptor handling, Drop, doctor's try_open (tied by correspondence); flock/rename semantics as stated in Model/LockTable.v (OS oracle); commit atomic in the model "
+               "(the steps inside with_staging_lock are not interleaved); shared-lock readers, downgrade/upgrade, and two handles appending to one inode's log region at once are not modelled; harness.",
+    trusted_base=["flock(2)/rename(2) semantics as written at the top of Model/LockTable.v: lock per open file description, exclusive conflicts with every other description's lock on the inode, released at unlock or last close, rename touches no lock",
+                  "a handle owns its descriptions (no fork / descriptor passing); the lock table is the collection of the handles' lock descriptions"],
+    assumptions=["commit (with_staging_lock) is one atomic step of the model; a blocking open is cut into open(path) / each round of the retry loop / give up",
+                 "open_read_only (shared lock), downgrade_to_shared / upgrade_to_exclusive are not modelled: a read-only handle cannot write (its WAL is read-only: put returns 'wal is read-only' even after ensure_writable)",
+                 "log records of two handles writing one inode's region overwrite each other by byte offset; the model is positional (write position per handle) and the correspondence histories avoid concurrent appends",
+                 "try_recover_from_wal_corruption's blocking lock_exclusive (doctor on a corrupted log) is not modelled"],
+    allowed_axioms=[],
+)
+
+PROPS["C41"] = dict(
+    corr_module="Corr.C41",
+    streams={"sched": dict(runner="C41_run", in_t="C41_in", out_t="C41_out", shard=3, imports=["Model.Store", "Model.Enrich", "Corr.C01"]),
+             "real": dict(runner="C41_real_run", in_t="C41_real_in", out_t="C41_real_out", shard=3, imports=["Model.Store", "Corr.C01"])},
+    n_quick=16, n_thorough=240,
+    harness_timeout=3000,
+    rule="stream sched (3/4 of the cases): the real run_worker_loop with the four closures of start_enrichment_worker (same bodies, each behind a gate) against a foreground thread whose calls pass the same gate; "
+         "a generated token plan decides which thread runs its next critical section, so the interleaving is chosen by the generator: 0-8 worker steps between two foreground calls, "
+         "checkpoint_interval in {0,1,2,3,100}, foreground calls put (20-300 B text or 2.5-4 KB chunked; instant_index x enable_embedding in all four combinations, so queued and unqueued documents), "
+         "update with/without payload, delete (preferring queued documents, sometimes an uncommitted id), commit, search, process_all_enrichment, stop always last (with or without first waiting for the queue to drain); "
+         "three fixed first cases: put / worker get+process+complete / commit (F-C41-1), put+commit / get / drain / process+complete (F-C41-2), commit landing between get and process; "
+         "every critical section logs under the mutex what it did and saw; the logged order IS the schedule replayed through the model; compared per step: kind of step (idle get / get / process ok / process error / complete / checkpoint / final checkpoint / foreground call), "
+         "returned value, queue length, first task, frame_count, next_frame_id; at the end: frame table (id, uri, content tag, role, status, links), enrichment_state of every frame, frames_processed, errors, stopped. "
+         "stream real (1/4): the real start_enrichment_worker thread (task_delay_ms 0, checkpoint_interval in {1,2,3,100}) running freely against a foreground thread issuing 5-11 calls in groups of 1-3 per lock acquisition with random yield_now / 50 us - 40 ms sleeps; "
+         "then commit, wait for the queue to empty, stop(), wait for is_running() = false, commit; compared with the model: final frame table against the C01 reference model applied to the acknowledged foreground calls. "
+         "Property oracle on the implementation (both streams): acknowledged document missing / other content; unqueued frame seen Searchable; a state moving Enriched -> Searchable; queued, committed, Active frame still Searchable with the queue empty; a task processed twice; "
+         "frames_processed != number of queued puts (real stream); errors inconsistent with the un-enriched frames; stats() inconsistent with the closures that ran; a second get after stop; a checkpoint before the interval; queue not empty 60 s after the foreground went silent; worker not stopped 60 s after stop(). "
+         "non-trivial = the worker processed at least one task (and ran at least 3 critical sections in stream sched); distinct by digest of the schedule / history",
+    level_text="Unbounded theorems over a model of run_worker_loop (state machine: top/get, process, complete, checkpoint, stopped), the four closures of start_enrichment_worker, next/process/complete_enrichment_task, mark_frame_enriched, process_all_enrichment and the queue push of put_internal, on top of the C01/C06 frame-table model; a schedule is ANY merge of worker critical sections and foreground calls (put, update, delete, commit, search, drain, stop), any checkpoint_interval. "
+               "Proved for all schedules: the exposed frame table is the C01 reference table of the acknowledged foreground calls alone; queue, marked and processed ids are ids queued by a put; the queue has no duplicates; the in-flight task is the first task or already removed; a never-queued frame never changes state; every queued id is still queued, Enriched, processed-before-commit or processed-when-no-longer-Active; "
+               "after stop the worker fetches no new task, processes at most the one it holds and has exited within 4 of its own steps; with a silent foreground 4k+3 worker steps empty a queue of k tasks and, if nothing is pending, every live unprocessed task ends Enriched. "
+               "'Every queued frame ends Enriched' is REFUTED (task processed before its put is committed: dropped with 'Frame not found', frame Searchable for ever; F-C41-1) and proved outside that class; 'exactly once' is REFUTED (public process_all_enrichment between the worker's get and complete: processed twice; F-C41-2) and proved outside that class. "
+               "Tied to the code by gated runs of the real run_worker_loop compared step by step and by free-running runs of the real worker thread.",
+    level_note="Known findings F-C41-1 (enriched-before-commit) and F-C41-2 (drain-overlaps-worker). Partial: (a) thread scheduling itself is not modelled -- the theorems are about every sequence of critical sections, the mutex is trusted to make them atomic; the lock-free stop test is merged with the critical section that follows it (a stop() landing between the two commutes with that section; the harness reorders that one logged get accordingly); "
+               "(b) Tantivy updates and full-text re-extraction inside process_enrichment_task are outside the model (an index-update error would still mark the frame Enriched and count an error; never observed, flagged by the oracle as process-error if it happens); (c) frame table half under the side condition of C01 (run_ok); (d) start_enrichment_worker_with_embeddings does not use run_worker_loop at all (one process_enrichment_with_embeddings call under a single lock, stop is never read): not covered; "
+               "(e) in the free-running stream the schedule is not observable, so only schedule-independent consequences are compared with the model (frame table) or checked by the oracle (counters, states); the step-by-step comparison uses copies of the four closure bodies of start_enrichment_worker (they are closures inside that function and cannot be called separately).",
+    trusted_base=["std::sync::Mutex makes every closure body and every foreground call atomic with respect to each other",
+                  "oracle inputs of each store call as in C01 (auto-checkpoint happened, extra log records, number of chunks); `extra` of a worker checkpoint read from the WAL counters inside the instrumented closure",
+                  "Tantivy (delete_frame/add_frame/soft_commit in update_tantivy_for_enrichment) and extract_full_text are not modelled",
+                  "the harness gate (a condvar in front of each closure / foreground call) and its log"],
+    assumptions=["as C01: no I/O errors; update/delete targets are Document frames", "updates are issued without instant_index (an update never queues)",
+                 "extraction is never time-limited ('skim') on the generated texts, so needs_enrichment = instant_index && enable_embedding",
+                 "fairness (liveness theorems): the worker gets the stated number of steps"],
+    allowed_axioms=[],
+)
+
+PROPS["C29"] = dict(
+    corr_module="Corr.C29",
+    streams={
+        "unlock": dict(runner="C29_unlock_run", in_t="C29_unlock_in", out_t="C29_out", shard=40),
+        "lock": dict(runner="C29_lock_run", in_t="C29_lock_in", out_t="C29_out", shard=40),
+    },
+    n_quick=3, n_thorough=18,
+    harness_timeout=3000,
+    rule="n = number of capsules. Per capsule: a random file starting with MV2\\0 (size classes: 2 MiB + 1..40 B = three records with a short last one, 4-120 B, exactly 2 MiB, exactly 1 MiB, "
+         "1 MiB + 1..40 B, 1000-900000 B, 2 MiB + random, exactly 3 MiB, 4 B, 1 MiB - 1), random password of 0-12 bytes, locked by the real lock_file (feature `encryption`); the capsule is compared "
+         "with the model's (lock stream; 4 files that are not .mv2 files must be refused). Then 40-110 faulted copies are given to the real unlock_file: intact; truncation at -1, 0, +1, +3, +4, +5 of every record "
+         "boundary and of the file end (thorough, first capsule: every offset within +-8), at 63..68 around the header end, 3 random offsets; one bit flip per header field (magic, version, kdf, cipher, salt, nonce[0..4], "
+         "nonce[4..12], original_size, reserved[0], reserved[1..3]), in 3 bytes of a length prefix, in a ciphertext body, in a tag, in the first ciphertext byte; adjacent records swapped, first and last swapped, "
+         "first / middle record dropped, two equal-length ciphertexts swapped under their length prefixes, last / first record duplicated; 1, 2, 3, 4, 5, 20 bytes appended; wrong password; a record presented as a "
+         "one-shot capsule (reserved[0] = 0, nonce counter = its index, original_size = its plaintext length), the same with a wrong size, reserved[0] := 0 alone. Compared with the model: Ok + the plaintext written "
+         "(as runs of the original file) or the error kind. Oracle on the implementation: Ok on a modified capsule / wrong password, written plaintext different from the file, destination present after an error, panic. "
+         "non-trivial = a faulted capsule, or an intact one with at least 2 records; distinct by digest of (capsule, fault)",
+    level_text="Unbounded theorems over a line-by-line model of lock_file_stream / unlock_file / unlock_file_stream / unlock_file_oneshot / Mv2eHeader / write_atomic with the chunk size a parameter and Argon2 / AES-256-GCM as "
+               "arbitrary functions satisfying the ideal-AEAD laws: for EVERY .mv2 file, password, salt, nonce and chunk size unlock(lock f) = f byte for byte; a record replaced by anything that is not a valid ciphertext "
+               "for its position (bit flip in ciphertext or tag) -> Decryption error; a record at the wrong position (swap, replay, drop) -> Decryption error; a cut inside a chunk -> I/O error; a failed unlock leaves the "
+               "destination untouched. The property as stated is REFUTED (general theorem + vm_compute witnesses): for every file and every m the capsule cut after its m-th record (or up to 3 bytes into the next length "
+               "prefix) unlocks without error to the first m chunks; original_size, reserved[1..3] and nonce[4..12] are ignored; 1-3 trailing bytes are ignored; a record presented as a one-shot capsule is accepted. "
+               "Proved outside the truncation class (streaming path): any presented byte string whose records are not forgeries and are at least as many as the file's chunks either fails or yields exactly f.",
+    level_note="Partial. Known findings F-C29-1 (truncated-at-chunk-boundary), F-C29-2 (unauthenticated-header-field), F-C29-3 (trailing-partial-length-prefix), F-C29-4 (stream-to-oneshot-downgrade), all reproduced on the "
+               "implementation on every run. The clause 'ANY modification fails' is proved per modification kind, not as one theorem over all byte strings outside the four classes; the outside-known theorem covers the "
+               "streaming path only. Trusted: Coq kernel + vm_compute; hand-written model (tied by correspondence: the same Gallina functions, instantiated on runs of literal bytes and opaque tokens so that MiB-sized "
+               "capsules can be evaluated; that instance is not proved equivalent to the byte instance); AES-256-GCM and Argon2id as ideal primitives.",
+    trusted_base=["Argon2id is a Section variable kdf (arbitrary function); AES-256-GCM is a pair (enc, dec) with dec_enc, enc_len (+16), dec_sound, enc_bind (a ciphertext is bound to its key and nonce) as hypotheses of the theorems that need them",
+                  "in the correspondence run the AEAD is the table of (nonce, plaintext run, ciphertext run) that the real aes-gcm crate decrypts under the real Argon2id key (candidate nonces: model's formula and 4 variants), the KDF is the table of the one derivation made; anything else does not decrypt",
+                  "the token instance of the model (Corr/C29.v: run_split, run_lit, norm) is trusted code of about 40 lines",
+                  "vec![0u8; chunk_len] for a crafted length prefix (up to 4 GiB) is assumed to succeed; the harness flips only bits that keep a length below 16 MiB",
+                  "harness/Cargo.toml enables memvid-core's `encryption` feature (additive) and optimises the argon2 / aes-gcm crates"],
+    assumptions=["an .mv2 file = a byte string below 2^64 bytes starting with MV2\\0 (lock_file refuses anything else: checked)",
+                 "chunk size 0 < cs, cs + 16 < 2^32 (ciphertext length as u32); reads from a regular file return full chunks",
+                 "fewer than 2^64 chunks (chunk_index: u64)",
+                 "no-forgery hypothesis of the integrity theorems: a presented record is either a ciphertext lock issued or decrypts under no key/nonce (what AEAD integrity gives)"],
+    allowed_axioms=[],
+)
